@@ -1,11 +1,9 @@
-(* C03/ProofsTrace.v — upper-bound trace (partial): every belief point accepted by ub_point_ok 0
-   against surfaces of the history is a sound upper-bound entry, and pruning keeps soundness —
-   PROVIDED the interpolation surface built from sound entries is itself sound (premise
-   [surface_of_sound_entries]; proved here for the corner-plane part, the sawtooth part is the
-   missing lemma, see notes/C03.md). Corner writes into ubQ are not covered. *)
+(* C03/ProofsTrace.v — upper-bound trace: from sound states, every belief point accepted by
+   ub_point_ok 0, every corner write accepted by ub_corner_ok 0 (each certified against a surface of
+   the history) and every pruning keeps all states sound; the surface of a sound state is sound. *)
 From Coq Require Import List Arith ZArith QArith Qpower Qminmax Lqa Lia Bool Setoid.
 From AIT Require Import Base.Qx Base.Mdp Base.MdpExec C02.Model C02.Spec C02.ProofsVec C02.ProofsCross
-  C02.ProofsSched C02.ProofsProj C02.ProofsIP C02.ProofsEV C03.Model C03.Spec C03.ProofsLB C03.ProofsUB.
+  C02.ProofsSched C02.ProofsProj C02.ProofsIP C02.ProofsEV C03.Model C03.Spec C03.ProofsLB C03.ProofsUB C03.ProofsSaw.
 Import ListNotations.
 Local Open Scope Q_scope.
 
@@ -18,116 +16,82 @@ Section Trace.
   Variable c : Q.
   Hypothesis Hc : tail_lo m c.
 
-  Definition surface_sound (U : vec -> Q) : Prop :=
-    forall n t, nonneg t -> length t = S -> W m c n t <= U t.
-  Definition point_sound (p : vec * Q) : Prop :=
-    nonneg (fst p) /\ length (fst p) = S /\ forall n, W m c n (fst p) <= snd p.
-  Definition state_sound (st : ubstate) : Prop := ubdom m c (fst st) /\ Forall point_sound (snd st).
-
-  (* the corner-plane surface of a dominated table is sound whatever the points are *)
-  Lemma lin_surface_sound : forall st, state_sound st -> surface_sound (lin_surface m (fst st)).
-  Proof. intros st [H _] n t Hn Hl. apply H; assumption. Qed.
-
-  (* one-step look-ahead over sound surfaces bounds W at every level *)
-  Lemma ub_backup_bound : forall (Us : nat -> vec -> Q) b v, nonneg b -> length b = S ->
-    (forall a, (a < A)%nat -> surface_sound (Us a)) ->
-    (forall a, (a < A)%nat ->
-       rew_at m b a + g * qsum (map (fun o => Us a (tau_step m b a o)) (seq 0 (nO m))) <= v) ->
-    forall n, W m c n b <= v.
-  Proof.
-    intros Us b v Hn Hl HU Hv n. pose proof (Hg m Hwf) as [G0 G1]. fold g in G0, G1.
-    pose proof (HA m Hwf) as HAp. fold A in HAp.
-    assert (Hfut : forall k a, (a < A)%nat ->
-              qsum (map (fun o => W m c k (tau_step m b a o)) (seq 0 (nO m))) <=
-              qsum (map (fun o => Us a (tau_step m b a o)) (seq 0 (nO m)))).
-    { intros k a Ha. apply qsum_map_le. intros o _.
-      apply (HU a Ha); [apply (tau_step_nonneg m Hwf); [exact Hn| unfold A in Ha; exact Ha]| apply tau_step_length]. }
-    destruct n as [|n].
-    - (* level 0: c <= R + g c per unit of mass *)
-      pose proof (Hfut 0%nat 0%nat HAp) as H0. pose proof (Hv 0%nat HAp) as H1.
-      assert (E : qsum (map (fun o => W m c 0 (tau_step m b 0%nat o)) (seq 0 (nO m))) == c * mass m b).
-      { rewrite <- (mass_conservation m Hwf b 0%nat HAp). rewrite <- qsum_map_mul_l. apply qsum_map_ext.
-        intros o _. unfold W. cbn [EV]. rewrite pw_0. ring. }
-      pose proof (rew_at_ge_c m (c - g * c) b 0%nat Hn HAp) as Hr.
-      assert (Hr' : (c - g * c) * mass m b <= rew_at m b 0%nat).
-      { apply Hr. intros s Hs. pose proof (Hc s 0%nat Hs HAp). fold g in H. lra. }
-      unfold W at 1. cbn [EV]. rewrite pw_0. nra.
-    - rewrite (W_succ m Hwf). apply maxl_le; [apply (mapA_ne m Hwf)|].
-      intros y Hy. apply in_map_iff in Hy. destruct Hy as [a [<- Ha]]. apply in_seq in Ha. fold g.
-      pose proof (Hfut n a ltac:(unfold A; lia)) as H0. pose proof (Hv a ltac:(unfold A; lia)) as H1. nra.
-  Qed.
-
-  (* ---- the trace: states most recent first; premise = surface_of_sound_entries *)
-  Hypothesis surface_of_sound_entries : forall st, state_sound st -> surface_sound (usurf m st).
-
-  Inductive ub_event : Type :=
-  | UbPoint (b : vec) (v : Q) (ks : list nat)      (* add (b, v); ks: for each action, the history index used *)
-  | UbPrune (keep : list nat).                     (* keep these points of the current state *)
-
-  Definition ub_step (hist : list ubstate) (e : ub_event) : option (list ubstate) :=
-    match hist with
-    | [] => None
-    | cur :: _ =>
-      match e with
-      | UbPoint b v ks =>
-        if (nonnegb b && (length b =? S)%nat && ub_point_ok m hist b v ks 0)%bool
-        then Some ((fst cur, snd cur ++ [(b, v)]) :: hist) else None
-      | UbPrune keep =>
-        if forallb (fun i => (i <? length (snd cur))%nat) keep
-        then Some ((fst cur, map (fun i => nth i (snd cur) ([], 0)) keep) :: hist) else None
-      end
-    end.
-
-  Fixpoint ub_run (hist : list ubstate) (evs : list ub_event) : option (list ubstate) :=
-    match evs with
-    | [] => Some hist
-    | e :: rest => match ub_step hist e with Some h' => ub_run h' rest | None => None end
-    end.
-
   Lemma nonnegb_nonneg : forall b, nonnegb b = true -> nonneg b.
   Proof.
     intros b H. unfold nonnegb in H. rewrite forallb_forall in H. apply Forall_forall.
     intros x Hx. apply Qle_bool_iff. apply H; exact Hx.
   Qed.
 
-  Lemma ub_point_sound : forall hist b v ks, Forall state_sound hist -> nonneg b -> length b = S ->
-    ub_point_ok m hist b v ks 0 = true -> point_sound (b, v).
+  Lemma hist_surface : forall hist k st, Forall (state_sound m c) hist -> nth_error hist k = Some st ->
+    surface_sound m c (usurf m st).
   Proof.
-    intros hist b v ks Hall Hn Hl H. split; [exact Hn| split; [exact Hl|]]. cbn [fst snd].
-    unfold ub_point_ok in H. apply andb_true_iff in H. destruct H as [_ H]. rewrite forallb_forall in H.
-    (* per action, the surface of the chosen history state *)
-    set (Us := fun a => match nth_error hist (nth a ks O) with Some st => usurf m st | None => fun _ => v end).
-    apply (ub_backup_bound Us b v Hn Hl).
-    - intros a Ha. unfold Us. pose proof (H a ltac:(apply in_seq; unfold A in Ha; lia)) as Ha'.
-      destruct (nth_error hist (nth a ks O)) as [st|] eqn:E; [| discriminate].
-      apply surface_of_sound_entries. rewrite Forall_forall in Hall. apply Hall. eapply nth_error_In; exact E.
-    - intros a Ha. unfold Us. pose proof (H a ltac:(apply in_seq; unfold A in Ha; lia)) as Ha'.
-      destruct (nth_error hist (nth a ks O)) as [st|] eqn:E; [| discriminate].
-      apply Qle_bool_iff in Ha'. unfold ub_backup in Ha'. fold g in Ha'. lra.
+    intros hist k st Hall E. apply (usurf_sound m Hwf). rewrite Forall_forall in Hall. apply Hall.
+    eapply nth_error_In; exact E.
   Qed.
 
-  Lemma ub_step_sound : forall hist e hist', Forall state_sound hist -> ub_step hist e = Some hist' ->
-    Forall state_sound hist'.
+  Lemma ub_point_sound : forall hist b v ks, Forall (state_sound m c) hist -> nonneg b -> length b = S ->
+    ub_point_ok m hist b v ks 0 = true -> point_sound m c (b, v).
+  Proof.
+    intros hist b v ks Hall Hn Hl H. split; [exact Hn| split; [exact Hl|]]. cbn [fst snd]. intros n.
+    unfold ub_point_ok in H. apply andb_true_iff in H. destruct H as [_ H]. rewrite forallb_forall in H.
+    rewrite (W_max_Qlev m Hwf). apply maxl_le; [apply (mapA_ne m Hwf)|].
+    intros y Hy. apply in_map_iff in Hy. destruct Hy as [a [<- Ha]]. pose proof (H a Ha) as Ha'. apply in_seq in Ha.
+    destruct (nth_error hist (nth a ks O)) as [st|] eqn:E; [| discriminate].
+    apply Qle_bool_iff in Ha'. unfold ub_backup in Ha'.
+    eapply Qle_trans; [apply (Qlev_backup_bound m Hwf c Hc (usurf m st) b a (hist_surface hist _ st Hall E) Hn Hl); unfold A; lia|].
+    unfold g in *. lra.
+  Qed.
+
+  Lemma ub_corner_sound : forall hist q s a v k, Forall (state_sound m c) hist -> qdom m c q ->
+    ub_corner_ok m hist s a v k 0 = true -> qdom m c (mset m q s a v).
+  Proof.
+    intros hist q s a v k Hall Hq H. unfold ub_corner_ok in H.
+    apply andb_true_iff in H. destruct H as [H H3]. apply andb_true_iff in H. destruct H as [H1 H2].
+    apply Nat.ltb_lt in H1. apply Nat.ltb_lt in H2.
+    destruct (nth_error hist k) as [st|] eqn:E; [| discriminate]. apply Qle_bool_iff in H3. unfold ub_backup in H3.
+    destruct (unit_vec_props m s H1) as [Ne [Le _]].
+    apply (corner_write_qdom m Hwf c q s a v Hq H1 H2). intros n.
+    eapply Qle_trans; [apply (Qlev_backup_bound m Hwf c Hc (usurf m st) _ a (hist_surface hist _ st Hall E) Ne Le H2)|].
+    unfold g in *. lra.
+  Qed.
+
+  Lemma ub_step_sound : forall hist e hist', Forall (state_sound m c) hist -> ub_step m 0 hist e = Some hist' ->
+    Forall (state_sound m c) hist'.
   Proof.
     intros hist e hist' Hall H. unfold ub_step in H. destruct hist as [|cur rest]; [discriminate|].
-    pose proof (Forall_inv Hall) as [Hq Hp]. destruct e as [b v ks|keep].
-    - destruct (nonnegb b && (length b =? S)%nat && ub_point_ok m (cur :: rest) b v ks 0)%bool eqn:E; [| discriminate].
+    pose proof (Forall_inv Hall) as [Hq Hp]. destruct e as [b v ks|s a v k|keep].
+    - destruct (nonnegb b && (length b =? nS (pm m))%nat && ub_point_ok m (cur :: rest) b v ks 0)%bool eqn:E; [| discriminate].
       inversion H; subst. apply andb_true_iff in E. destruct E as [E E3]. apply andb_true_iff in E. destruct E as [E1 E2].
       constructor; [| exact Hall]. split; [exact Hq|]. cbn [snd]. apply Forall_app. split; [exact Hp|].
       constructor; [| constructor].
       apply (ub_point_sound (cur :: rest) b v ks Hall (nonnegb_nonneg b E1)); [apply Nat.eqb_eq; exact E2| exact E3].
+    - destruct (ub_corner_ok m (cur :: rest) s a v k 0) eqn:E; [| discriminate].
+      inversion H; subst. constructor; [| exact Hall]. split; [| exact Hp]. cbn [fst].
+      apply (ub_corner_sound (cur :: rest) (fst cur) s a v k Hall Hq E).
     - destruct (forallb (fun i => (i <? length (snd cur))%nat) keep) eqn:E; [| discriminate].
       inversion H; subst. constructor; [| exact Hall]. split; [exact Hq|]. cbn [snd].
       apply Forall_forall. intros p Hp'. apply in_map_iff in Hp'. destruct Hp' as [i [<- Hi]].
       rewrite forallb_forall in E. rewrite Forall_forall in Hp. apply Hp. apply nth_In. apply Nat.ltb_lt. apply E; exact Hi.
   Qed.
 
-  Theorem ub_trace_sound_lemma : forall evs hist final, Forall state_sound hist ->
-    ub_run hist evs = Some final -> Forall state_sound final.
+  Theorem ub_trace_sound_lemma : forall evs hist final, Forall (state_sound m c) hist ->
+    ub_run m 0 hist evs = Some final -> Forall (state_sound m c) final.
   Proof.
     induction evs as [|e rest IH]; intros hist final Hall H; cbn [ub_run] in H.
     - inversion H; subst; exact Hall.
-    - destruct (ub_step hist e) as [h'|] eqn:E; [| discriminate].
+    - destruct (ub_step m 0 hist e) as [h'|] eqn:E; [| discriminate].
       apply (IH h' final); [eapply ub_step_sound; eassumption| exact H].
+  Qed.
+
+  (* initial state: any FIB iterate from a super-solution, with no points (or with points proved sound) *)
+  Lemma fib_state_sound : forall q0 k, tge_c m c q0 -> tle m (fib_op m q0) q0 ->
+    state_sound m c (fib_iter m k q0, []).
+  Proof.
+    intros q0 k Hge Hsup. split; [| constructor]. cbn [fst].
+    assert (H : tge_c m c (fib_iter m k q0) /\ tle m (fib_op m (fib_iter m k q0)) (fib_iter m k q0)).
+    { induction k as [|k IH]; [split; assumption|]. destruct IH as [I1 I2].
+      change (fib_iter m (Datatypes.S k) q0) with (fib_step m (fib_iter m k q0)).
+      destruct (fib_step_supersol m Hwf c _ Hc I1 I2) as [J1 [J2 _]]. split; assumption. }
+    destruct H as [H1 H2]. apply (supersol_qdom m Hwf c); assumption.
   Qed.
 End Trace.
